@@ -116,8 +116,9 @@ def main():
     }
     json.dump(meta, open(os.path.join(dst, "meta.json"), "w"), indent=1)
     print(json.dumps(res, indent=1))
-    # restore Gen/ and evidence from /repo
-    sh(f"cd {VERIF} && ./check {prop} quick")
+    # restore Gen/ and evidence from /repo (skipped during the final pass, which restores once per property at the end)
+    if not os.path.exists(os.path.join(VERIF, ".scratch", "NO_RESTORE")) and not os.environ.get("SEED_EVAL_NO_RESTORE"):
+        sh(f"cd {VERIF} && ./check {prop} quick")
 
 
 if __name__ == "__main__":
